@@ -26,10 +26,61 @@ def unlocks(g):
     return sel(g.cnt, CMD_UNLOCK)
 
 
-def monotone(g, old):
-    return (g.nx >= old.g.nx and g.conn >= old.g.conn and g.disc >= old.g.disc and prefix_of(old.g.log, g.log)
-            and prefix_of(old.g.resps, g.resps) and len(g.log) == len(old.g.log) + (g.nx - old.g.nx)
-            and len(g.resps) == len(old.g.resps) + (g.nx - old.g.nx))
+def last_two_say_onboarded_bootloader(g):
+    n = len(g.log)
+    m = len(g.resps)
+    return (n >= 2 and m >= 2 and g.log[n - 2] == apdu_of(0x06, b"") and g.resps[m - 2][1] == 1
+            and g.log[n - 1] == apdu_of(0x43, b"") and g.resps[m - 1][1] == BOOTLOADER)
+
+
+@contract("ledger/protocol.py", "HSM2ProtocolLedger._handle_bootloader", serves=["C09", "C10", "C11", "C03"])
+class HandleBootloader(Contract):
+    self_spec = PROTO
+    modifies_self = dict(_dongle_ui_version=VERSION)
+    max_paths = 8000
+    exception_serves = ("C09", "C03")
+
+    def pin_invariant(self):
+        """class invariant of FileBasedPin between requests: a valid PIN loaded, no change in progress"""
+        return pin_policy(self.pin._pin) and not self.pin._changing
+    @only("C09")
+    def device_said_onboarded_and_bootloader(g):
+        """the caller has just learnt, from the device, that it is onboarded and in bootloader mode"""
+        return last_two_say_onboarded_bootloader(g)
+    requires = [pin_invariant, device_said_onboarded_and_bootloader]
+
+    # ---- C09: the unlock command is sent only under its preconditions, and at most once
+    @only("C09")
+    def unlock_only_when_safe(self, g, old):
+        """at the call of dongle.unlock: (onboarded and bootloader by the precondition, and) the device reported a
+        supported UI version, echoed correctly and has at least two retries left; nothing else was exchanged"""
+        return (last_two_say_onboarded_bootloader(old.g)
+                and sent(g, old, 0, apdu_of(0x06, b""))
+                and ver_supported(answer(g, old, 0)[2], answer(g, old, 0)[3], answer(g, old, 0)[4])
+                and sent(g, old, 1, apdu_of(0x02, bytes([0x41, 0x42, 0x43])))
+                and answer(g, old, 1) == bytes([0x80, 0x02, 0x41, 0x42, 0x43])
+                and sent(g, old, 2, apdu_of(0x45, b"")) and answer(g, old, 2)[2] >= 2
+                and g.nx == old.g.nx + 3 and unlocks(g) == unlocks(old.g))
+    @only("C10", "C09")
+    def new_pin_only_after_unlock(self, g, old):
+        return unlocks(g) == unlocks(old.g) + 1 and sel(g.cnt, CMD_CHANGE_PIN) == sel(old.g.cnt, CMD_CHANGE_PIN)
+    at_calls = {"unlock": [unlock_only_when_safe], "new_pin": [new_pin_only_after_unlock]}
+
+    def unlocked_without_pin_change(g, old):
+        """normal return: exactly one unlock, accepted; no PIN change; the connection was re-opened"""
+        return (unlocks(g) == unlocks(old.g) + 1 and sel(g.cnt, CMD_CHANGE_PIN) == sel(old.g.cnt, CMD_CHANGE_PIN)
+                and monotone(g, old) and g.conn == old.g.conn + 1)
+    ensures = [unlocked_without_pin_change]
+
+    def x_frame(g, old): return monotone(g, old) and unlocks(g) <= unlocks(old.g) + 1
+    raises = {
+        PERR: Exc(args=[STR_], post=[x_frame]),
+        PINT: Exc(post=[x_frame]),
+        ERR_RESULT: Exc(args=[INT_], post=[x_frame, x_err]),
+        ERR_TIMEOUT: Exc(args=[STR_], post=[x_frame, x_timeout]),
+        ERR_COMM: Exc(args=[STR_], post=[x_frame]),
+        ERR_DONGLE: Exc(args=[STR_], post=[x_frame]),
+    }
 
 
 @contract("ledger/protocol.py", "HSM2ProtocolLedger.initialize_device", serves=["C09", "C10", "C11", "C03"])
@@ -40,27 +91,8 @@ class InitializeDevice(Contract):
     exception_serves = ("C09", "C03")
 
     def pin_invariant(self):
-        """class invariant of FileBasedPin between requests: a valid PIN loaded, no change in progress"""
         return pin_policy(self.pin._pin) and not self.pin._changing
     requires = [pin_invariant]
-
-    # ---- C09: the unlock command is sent only under its five preconditions, and at most once
-    @only("C09")
-    def unlock_only_when_safe(self, g, old):
-        """at the call of dongle.unlock: the device answered onboarded, bootloader mode, a supported UI version,
-        echoed correctly and reported at least two retries; no unlock has been sent yet"""
-        return (sent(g, old, 0, apdu_of(0x06, b"")) and answer(g, old, 0)[1] == 1
-                and sent(g, old, 1, apdu_of(0x43, b"")) and answer(g, old, 1)[1] == BOOTLOADER
-                and sent(g, old, 2, apdu_of(0x06, b""))
-                and ver_supported(answer(g, old, 2)[2], answer(g, old, 2)[3], answer(g, old, 2)[4])
-                and sent(g, old, 3, apdu_of(0x02, bytes([0x41, 0x42, 0x43])))
-                and answer(g, old, 3) == bytes([0x80, 0x02, 0x41, 0x42, 0x43])
-                and sent(g, old, 4, apdu_of(0x45, b"")) and answer(g, old, 4)[2] >= 2
-                and g.nx == old.g.nx + 5 and unlocks(g) == unlocks(old.g))
-    @only("C10", "C09")
-    def new_pin_only_after_unlock(self, g, old):
-        return unlocks(g) == unlocks(old.g) + 1 and sel(g.cnt, CMD_CHANGE_PIN) == sel(old.g.cnt, CMD_CHANGE_PIN)
-    at_calls = {"unlock": [unlock_only_when_safe], "new_pin": [new_pin_only_after_unlock]}
 
     # ---- normal return = the manager goes on to serve
     @only("C09")
